@@ -749,6 +749,13 @@ fn root_doc(rng: &mut Rng, comps: &[&Component], titled: Option<String>) -> Valu
                 );
             }
         }
+        // sometimes the root refers to itself (`#`): a recursive root type
+        if rng.chance(1, 6) {
+            props.insert(
+                "again".to_string(),
+                if rng.chance(1, 2) { json!({"$ref": "#"}) } else { json!({"type": "array", "items": {"$ref": "#"}}) },
+            );
+        }
         doc["properties"] = Value::Object(props);
     }
     doc
@@ -1178,7 +1185,15 @@ pub fn generate(seed: u64, focus: Focus, faults: bool) -> RunDesc {
             let ext = gen_extension(rng, &sw, base, comps.len());
             let mut defs = base.defs.clone();
             defs.extend(ext.defs.clone());
-            ops.push(Op::AddRefTypes { defs, poison: None });
+            if rng.chance(1, 2) {
+                ops.push(Op::AddRefTypes { defs, poison: None });
+            } else {
+                let both = Component { prefix: String::new(), defs };
+                roots += 1;
+                let title = if rng.chance(2, 3) { Some(format!("Rt{roots}Root")) } else { None };
+                let doc = root_doc(rng, &[&both], title);
+                ops.push(Op::AddRootSchema { doc, poison: None });
+            }
             overlap = Some((base.defs.clone(), ext.defs.clone()));
             for (n, d) in &ext.defs {
                 added.push(n.clone());
